@@ -72,6 +72,10 @@ pub struct Violation {
     pub summary: String,
     /// complete, already minimised replay document
     pub replay: Value,
+    /// the same violation before minimisation; used when the minimised replay does not
+    /// reproduce in a fresh process (minimisation runs inside the checking process and can be
+    /// misled by state that other runs left behind there)
+    pub unminimised_replay: Option<Value>,
 }
 
 #[derive(Debug, Clone)]
@@ -142,6 +146,7 @@ pub fn finish(
     let mut exit = 0;
     let mut n_viol = 0;
     let mut n_known = 0;
+    let mut not_reproduced = 0;
     let mut lines = vec![];
     let replay_dir = ctx.verif_dir.join("replays");
     for (n, v) in violations.iter().enumerate() {
@@ -165,22 +170,38 @@ pub fn finish(
             n,
             crate::rng::Digest::of_str(&v.key) % 1_000_000
         ));
-        let mut doc = v.replay.clone();
-        doc["property"] = json!(v.property);
-        doc["class"] = json!(v.class);
-        doc["key"] = json!(v.key);
-        doc["summary"] = json!(v.summary);
-        doc["provenance"] = json!({"root_seed": ctx.seed, "tier": ctx.tier.name(), "repo": repo_provenance()});
-        if let Err(e) = std::fs::write(&path, serde_json::to_string_pretty(&doc).unwrap()) {
-            eprintln!("HARNESS ERROR: cannot write replay {}: {e}", path.display());
-            return 2;
-        }
-        // the replay must reproduce in a fresh process, or the alarm is not emitted as a verdict
         let exe = std::env::current_exe().expect("current exe");
-        let out = std::process::Command::new(exe)
-            .arg("replay")
-            .arg(&path)
-            .output();
+        let write_and_replay = |body: &Value, minimised: bool| -> Result<std::process::Output, String> {
+            let mut doc = body.clone();
+            doc["property"] = json!(v.property);
+            doc["class"] = json!(v.class);
+            doc["key"] = json!(v.key);
+            doc["summary"] = json!(v.summary);
+            doc["minimised"] = json!(minimised);
+            doc["provenance"] = json!({"root_seed": ctx.seed, "tier": ctx.tier.name(), "repo": repo_provenance()});
+            std::fs::write(&path, serde_json::to_string_pretty(&doc).unwrap())
+                .map_err(|e| format!("cannot write replay {}: {e}", path.display()))?;
+            // the replay must reproduce in a fresh process, or the alarm is not emitted as a verdict
+            std::process::Command::new(&exe)
+                .arg("replay")
+                .arg(&path)
+                .output()
+                .map_err(|e| format!("cannot run replay: {e}"))
+        };
+        let mut out = write_and_replay(&v.replay, true);
+        if let (Ok(o), Some(orig)) = (&out, &v.unminimised_replay) {
+            if o.status.code() != Some(1) {
+                out = write_and_replay(orig, false);
+            }
+        }
+        let out = match out {
+            Ok(o) => Ok(o),
+            Err(e) => {
+                eprintln!("HARNESS ERROR: {e}");
+                return 2;
+            }
+        };
+        let out: Result<std::process::Output, std::io::Error> = out;
         match out {
             Ok(o) if o.status.code() == Some(1) => {
                 lines.push(format!("  {}", v.summary.replace('\n', "\n  ")));
@@ -192,15 +213,18 @@ pub fn finish(
                 exit = 1;
             }
             Ok(o) => {
+                // not reported as a verdict: only violations that replay exactly are. If some other
+                // violation of this run does reproduce, that one is the verdict; if none does, the
+                // run ends as a harness error below.
+                not_reproduced += 1;
+                n_viol -= 1;
+                let _ = std::fs::remove_file(&path);
                 eprintln!(
-                    "HARNESS ERROR: replay of {} did not reproduce (exit {:?})\n{}\n{}",
-                    path.display(),
+                    "WARNING: a violation did not reproduce when replayed in a fresh process (exit {:?}) and is not reported: {}\n{}",
                     o.status.code(),
+                    v.summary,
                     String::from_utf8_lossy(&o.stdout),
-                    String::from_utf8_lossy(&o.stderr)
                 );
-                eprintln!("  original summary: {}", v.summary);
-                return 2;
             }
             Err(e) => {
                 eprintln!("HARNESS ERROR: cannot run replay: {e}");
@@ -208,7 +232,14 @@ pub fn finish(
             }
         }
     }
+    if exit == 0 && not_reproduced > 0 {
+        eprintln!(
+            "HARNESS ERROR: {not_reproduced} violation(s) were observed but none reproduced from its replay file in a fresh process (state outside the replayed executions must be involved)"
+        );
+        return 2;
+    }
     coverage["known_findings_matched"] = json!(n_known);
+    coverage["violations_observed_but_not_reproducible_from_replay"] = json!(not_reproduced);
     let ev = json!({
         "property_id": property,
         "tier": ctx.tier.name(),
